@@ -197,7 +197,15 @@ class Engine:
         return set(self.repo.classes)
 
     def ty(self, node) -> Ty:
-        return T.parse_type(node, self.class_names())
+        return self._typed_dicts(T.parse_type(node, self.class_names()))
+
+    def _typed_dicts(self, t: Ty) -> Ty:
+        """TypedDict classes are plain dicts with str keys at run time."""
+        if t.k in ("obj", "sub") and t.a[0] in self.repo.classes and "TypedDict" in self.repo.classes[t.a[0]].bases:
+            return T.dct(T.STR, T.ANY)
+        if t.k in ("opt", "list", "vtuple", "dict", "tuple"):
+            return Ty(t.k, tuple(self._typed_dicts(x) if isinstance(x, Ty) else x for x in t.a))
+        return t
 
     def cid(self, cname: str) -> int:
         return self.repo.class_id[cname]
